@@ -175,7 +175,23 @@ def rule_solve_one(ctx: Ctx, prog: Program, want: Tuple[str, ...] = ("R-SOLUTION
                             and len(row.idx) == 1 and row.idx[0] == top_now and as_view(aa[2]) == View(P["triggers"], ())
                             and it.value_at(s, adds[0].hpos, aa[3]) == d and mask_ok
                         )
-                    if okh:
+                    row_ok = True
+                    if len(adds) == 1:
+                        row = as_view(adds[0].args[1])
+                        top_now = it.load_at(s, adds[0].hpos, P["stacks_top"], (K(0),))
+                        # a row at or below the current level enables a superset of the current row (rows below the top are frozen copies
+                        # taken before further constraints were disabled): waking through it is harmless; a row above is stale
+                        row_ok = isinstance(row, View) and row.root == P["not_entailed_propagators_stack"] and len(row.idx) == 1 and isinstance(row.idx[0], Aff) \
+                            and (row.idx[0] == top_now or (_nonneg(f, top_now).decide(cmp_cond("<=", row.idx[0], top_now)) is True and f.decide(cmp_cond(">=", row.idx[0], ZERO)) is True))
+                        if not okh and row_ok and not (row.idx[0] == top_now):
+                            aa = adds[0].args
+                            okh = (as_view(aa[0]) == View(P["triggered_propagators"], ()) and as_view(aa[2]) == View(P["triggers"], ())
+                                   and it.value_at(s, adds[0].hpos, aa[3]) == d and mask_ok)
+                    if not row_ok:
+                        ctx.violation("R-HANDOVER", fn.path, "solve_one", "announce-row", f"{fn.path}:{ev_dom.line}",
+                                      f"solve_one ({a.mode}): the decision is announced against {row!r}, which is not the enabled-flags row of the new top level "
+                                      "(nor a level below it): constraints disabled or enabled there are not those of the current node")
+                    elif okh:
                         ctx.ok("R-HANDOVER", f"{a.mode}: returned events announced for the chosen domain on the new top row",
                                sample={"add_propagators": [repr(x) for x in adds[0].args]})
                     else:
@@ -239,6 +255,12 @@ def rule_solve_one(ctx: Ctx, prog: Program, want: Tuple[str, ...] = ("R-SOLUTION
         ctx.floor(f"solve_one:{a.mode}:choice-paths", n_choice, 1)
         if "R-SOLUTION" in want:
             ctx.floor(f"R-SOLUTION:{a.mode}:backtrack-paths", n_bt, 2)
+
+
+def _nonneg(facts, top: Aff):
+    g = facts.copy()
+    g.add(cmp_cond(">=", top, ZERO))  # the level pointer is unsigned
+    return g
 
 
 def _line(bp: PathResult) -> int:
